@@ -162,7 +162,7 @@ def other_equal(a, b, dim):
 
 
 def analyse(table):
-    """table: {(model, seed): {env(hashseed, prior, clock): {rep: row}}}
+    """table: {(model, seed, library tree): {env(hashseed, prior, clock): {rep: row}}}
     Returns list of (model, dim, seed, envA, repA, envB, repB).
 
     One dimension at a time with every other answer held fixed.  Once a dimension is found to
@@ -171,7 +171,7 @@ def analyse(table):
     clock, which is not a hash-seed dependence)."""
     IDX = {"hashseed": 0, "prior": 1, "clock": 2}
     found = []
-    for (model, seed), by_env in sorted(table.items()):
+    for (model, seed, _tree), by_env in sorted(table.items()):
         flagged = set()
         live = {env: reps for env, reps in by_env.items() if 0 in reps}
 
@@ -292,6 +292,14 @@ def main(tier, seed, only=None):
         run.notes.append(f"partial run: models restricted to {names}")
     jobs = rotate(jobs, seed)
     results = run_jobs(jobs)
+    try:  # post-mortem aid only (never read back): every digest row of this run
+        with open(f"/tmp/C03-rows-{tier}-{seed}.jsonl", "w") as fh:
+            for res in results:
+                for row in res["rows"]:
+                    fh.write(json.dumps({"hashseed": res["job"]["hashseed"], "clock": res["job"]["clock"],
+                                         "mode": res["job"]["mode"], **row}) + "\n")
+    except OSError:
+        pass
 
     priors = ["fresh (forked child of the pristine interpreter)", "none (catalogue models before it)",
               "busy (3 unrelated simulations + 10k events, catalogue backwards)"]
@@ -301,6 +309,7 @@ def main(tier, seed, only=None):
                                  "hashseeds": hash_menu(tier, seed), "prior": priors, "clock": ["real", "warp"],
                                  "runs_back_to_back": "2 (quick: 1 in the 'busy' interpreters)", "interpreters": len(jobs)})
     table = {}
+    trees = {}
     digests = set()
     coupling = {}
     sizes = {}
@@ -314,7 +323,12 @@ def main(tier, seed, only=None):
                           f"rc={res['rc']} rows={len(res['rows'])}/{expect}: {res['err'][-300:]}")
         for row in res["rows"]:
             env = (job["hashseed"], row["prior"], job["clock"])
-            key = (row["model"], row["seed"])
+            tree = row.get("tree", "unknown")
+            trees[tree] = trees.get(tree, 0) + 1
+            if tree.startswith("unstable"):
+                continue  # the library tree changed while this interpreter was importing it
+            # runs are only compared with runs of the SAME library tree
+            key = (row["model"], row["seed"], tree)
             table.setdefault(key, {}).setdefault(env, {})[row["rep"]] = row
             d.executions += 1
             d.transitions += row["n"]
@@ -327,6 +341,10 @@ def main(tier, seed, only=None):
             sizes[row["model"]] = max(sizes.get(row["model"], 0), row["n"])
             if row["outcome"] == "horizon":
                 d.caps.append(f"{row['model']} seed={row['seed']}: stopped at the delivery horizon")
+    if len(trees) > 1:
+        d.exhaustive = False
+        d.caps.append(f"the library source tree changed while the matrix was running ({len(trees)} distinct trees: "
+                      f"{trees}); runs were only compared within one tree - re-run on a quiet tree")
     d.caps = sorted(set(d.caps))[:20]
     d.states = d.outcomes = len(digests)
 
@@ -373,10 +391,12 @@ def main(tier, seed, only=None):
         run.violation(f"{model}/{dim}", desc,
                       {"driver": "envmatrix", "model": model, "seed": mseed, "dimension": dim,
                        "a": {"job": ja, "prior": pa, "rep": ra_}, "b": {"job": jb, "prior": pb, "rep": rb_}})
-    seed_insensitive = sorted(m for m in names
-                              if len({sig(table[(m, s)][e][0]) for s in model_seeds(seed)
-                                      for e in [sorted(table.get((m, s), {}))[0]] if (m, s) in table
-                                      and 0 in table[(m, s)][e]}) <= 1)
+    by_model = {}
+    for (m, sd, _t), by_env in table.items():
+        for reps in by_env.values():
+            if 0 in reps:
+                by_model.setdefault(m, {}).setdefault(sd, sig(reps[0]))
+    seed_insensitive = sorted(m for m, per in by_model.items() if len(set(per.values())) <= 1 < len(per))
     d.extra = {"per_model_environment_queries(max per run)": coupling,
                "per_model_deliveries": sizes,
                "models_whose_digest_ignores_the_seed": seed_insensitive,
